@@ -58,6 +58,8 @@ pub struct LaunchShared {
     /// tasks whose launch fails (by task id), set by the harness before delivery
     pub fail_launch: std::collections::BTreeSet<TaskId>,
     pub dead_workers: std::collections::BTreeSet<WorkerId>,
+    /// resource environment variables that do not describe the held allocation (C04)
+    pub env_problems: Vec<(TaskId, WorkerId, String)>,
 }
 
 pub struct LiveExec {
@@ -96,7 +98,75 @@ impl TaskLauncher for FakeLauncher {
         let nodes = ctx.node_list().to_vec();
         let rv = ctx.resource_variant().as_num();
         let rq_id = ctx.resource_rq_id().as_num();
+        // what the task is told about its resources (C04)
+        let env = hyperqueue::worker::start::verif_resources_env(&ctx);
+        let (rmap, _) = ctx.get_resource_maps();
+        let mut env_problem: Option<String> = None;
+        if nodes.is_empty() {
+            for ra in &ctx.allocation().resources {
+                let name = rmap.get_name(ra.resource_id).unwrap_or("?").to_string();
+                let var: String = format!(
+                    "HQ_RESOURCE_VALUES_{}",
+                    name.chars()
+                        .map(|c| if c.is_ascii_alphanumeric() { c } else { '_' })
+                        .collect::<String>()
+                );
+                let told = env.get(bstr::BStr::new(var.as_bytes())).map(|v| v.to_string());
+                let labels: Vec<String> = ra
+                    .indices
+                    .iter()
+                    .map(|i| {
+                        ctx.get_resource_label_map()
+                            .get_label(ra.resource_id, i.index)
+                            .to_string()
+                    })
+                    .collect();
+                if labels.is_empty() {
+                    if told.is_some() {
+                        env_problem = Some(format!("{var} set for a resource without indices"));
+                    }
+                    continue;
+                }
+                let mut told_set: Vec<String> = told
+                    .clone()
+                    .unwrap_or_default()
+                    .split(',')
+                    .map(|s| s.to_string())
+                    .collect();
+                let mut held = labels.clone();
+                told_set.sort();
+                held.sort();
+                if told.is_none() || told_set != held {
+                    env_problem = Some(format!(
+                        "{var}={told:?} but the task holds the indices with labels {labels:?}"
+                    ));
+                }
+                // a partially allocated index is always the last one
+                if let (Some(t), Some(last)) = (&told, ra.indices.last()) {
+                    if last.fractions != 0 {
+                        let last_label = ctx
+                            .get_resource_label_map()
+                            .get_label(ra.resource_id, last.index)
+                            .to_string();
+                        if t.split(',').next_back() != Some(last_label.as_str()) {
+                            env_problem = Some(format!(
+                                "{var}={t}: the partially allocated index {last_label} is not the last value"
+                            ));
+                        }
+                    }
+                }
+                if name == "cpus" {
+                    let hq_cpus = env.get(bstr::BStr::new(b"HQ_CPUS")).map(|v| v.to_string());
+                    if hq_cpus != told {
+                        env_problem = Some(format!("HQ_CPUS={hq_cpus:?} differs from {var}={told:?}"));
+                    }
+                }
+            }
+        }
         let mut sh = self.shared.borrow_mut();
+        if let Some(p) = env_problem {
+            sh.env_problems.push((task, worker, p));
+        }
         let exec = sh.next_exec;
         sh.next_exec += 1;
         let fail = sh.fail_launch.contains(&task);
